@@ -5,11 +5,15 @@
 (* distributed over the actions of LoggerCid (New / Alias / Log, in percent). *)
 (* What the execution must look like is decided by Trace_LoggerCid.           *)
 EXTENDS Naturals, FiniteSets, TLC, Json
-CONSTANTS Goroutines, Ops, Shared, MixNames,
+CONSTANTS Goroutines,   \* goroutines of a run
+          Calls,        \* calls of a run, shared out evenly: ops = Calls \div n per goroutine
+          Reps,         \* repetitions of a descriptor (each a different seed)
+          Shared,       \* contexts made by the main goroutine before the others start
+          MixNames,
           Closers      \* is the writer handed to Switch also an io.Closer? {TRUE, FALSE}: both for every
                        \* descriptor; {}: one of the two, alternating over goroutine counts and mixes
-VARIABLES n, ops, mix, shared, closer
-vars == <<n, ops, mix, shared, closer>>
+VARIABLES n, ops, mix, shared, closer, rep
+vars == <<n, ops, mix, shared, closer, rep>>
 
 \* percent of calls per action of LoggerCid
 Mix(name) == CASE name = "create"   -> [name |-> name, new |-> 75, alias |-> 25, log |-> 0]
@@ -19,9 +23,9 @@ Mix(name) == CASE name = "create"   -> [name |-> name, new |-> 75, alias |-> 25,
 Pos(x, S) == Cardinality({y \in S : y < x})
 MixPos(m) == CASE m = "create" -> 0 [] m = "log" -> 1 [] m = "balanced" -> 2
 
-GenInit == /\ n \in Goroutines /\ ops \in Ops /\ shared \in Shared
+GenInit == /\ n \in Goroutines /\ ops \in {c \div n : c \in Calls} /\ shared \in Shared /\ rep \in Reps
            /\ mix \in {Mix(m) : m \in MixNames}
            /\ closer \in (IF Closers # {} THEN Closers ELSE {(Pos(n, Goroutines) + MixPos(mix.name)) % 2 = 1})
 GenNext == UNCHANGED vars
-Emit == PrintT(<<"CASE", ToJson([n |-> n, ops |-> ops, mix |-> mix, shared |-> shared, closer |-> closer])>>)
+Emit == PrintT(<<"CASE", ToJson([n |-> n, ops |-> ops, mix |-> mix, shared |-> shared, closer |-> closer, rep |-> rep])>>)
 =============================================================================
